@@ -924,8 +924,10 @@ class Frame(object):
         bounding_start_index = start_index + int(-px_width_offset)
         bounding_stop_index = start_index + int(px_drift_offset + px_width_offset)
 
-        bounding_min_index = max(min(bounding_start_index, bounding_stop_index), 0)
-        bounding_max_index = min(max(bounding_start_index, bounding_stop_index), self.fchans)
+        # Pad by a channel on either side: the truncated offsets above collapse the box 
+        # for widths below a channel, and the upper index is exclusive
+        bounding_min_index = max(min(bounding_start_index, bounding_stop_index) - 1, 0)
+        bounding_max_index = min(max(bounding_start_index, bounding_stop_index) + 2, self.fchans)
 
         # Select common frequency profile types
         if f_profile_type == 'gaussian':
